@@ -225,30 +225,6 @@ def shift (s : State) (mv : List (Int × Int)) : Except Err State :=
      && mv.all (fun m => (s.setXs mv).fitsInSite m.1)
   then .ok (s.setXs mv) else .error .runtime
 
-def unplaceAll (s : State) : List Int → State
-  | [] => s
-  | c :: cs => unplaceAll (s.unplace c) cs
-
-/-- the inner loop of `writeback`: place the cells of one region one after the other -/
-def placeChain (s : State) (r : Int) : Int → List (Int × Int) → Except Err State
-  | _, [] => .ok s
-  | p, (c, v) :: rest =>
-    match s.place c r p v with
-    | .error e => .error e
-    | .ok t => placeChain t r c rest
-
-def placeRegions (s : State) : List Region → Except Err State
-  | [] => .ok s
-  | g :: gs =>
-    match s.placeChain g.row g.pred g.cells with
-    | .error e => .error e
-    | .ok t => placeRegions t gs
-
-/-- `RowReordering::writeback` when `improvement_`: unplace all registered cells, then place every
-region's best order at its best positions -/
-def reorderWriteback (s : State) (cells : List Int) (regions : List Region) : Except Err State :=
-  (s.unplaceAll cells).placeRegions regions
-
 /-- cells of a row by following the links, at most `fuel` of them: `rowCells` -/
 def chain (s : State) : Nat → Int → List Int
   | 0, _ => []
@@ -467,21 +443,49 @@ def siteOk (s : State) (r p : Int) : Bool :=
 /-- a cell the optimiser may move: valid and optimised (not ignored) -/
 def liveCell (s : State) (c : Int) : Bool := decide (s.validCell c) && !s.isIgnored c
 
-/-- contract of a write-back: the unplaced cells are distinct live placed cells, the placed cells
-are exactly those, every region names a valid row and a predecessor that is -1 or a cell that
-stays placed in that row -/
-def reorderOk (s : State) (cells : List Int) (regions : List Region) : Bool :=
-  cells.all (fun c => s.liveCell c && s.isPlaced c) && cells.Nodup &&
-  ((regions.flatMap fun g => g.cells.map (·.1)).Perm cells) &&
-  regions.all fun g => decide (s.validRow g.row) &&
-    (g.pred == -1 || (decide (s.validCell g.pred) && s.row g.pred == g.row && !cells.contains g.pred))
+/-- the first loop of `writeback`: `unplace` every registered cell; the model refuses (guard) a cell
+that is not an optimised placed cell at its turn (the code takes it on trust from `addCells`) -/
+def unplaceAll (s : State) : List Int → Except Err State
+  | [] => .ok s
+  | c :: cs => if s.liveCell c && s.isPlaced c then unplaceAll (s.unplace c) cs else .error .guard
+
+/-- the inner loop of `writeback`: place the cells of one region one after the other; the model
+refuses (guard) a cell that is not an optimised unplaced cell or a predecessor outside the row -/
+def placeChain (s : State) (r : Int) : Int → List (Int × Int) → Except Err State
+  | _, [] => .ok s
+  | p, (c, v) :: rest =>
+    if s.liveCell c && !s.isPlaced c && s.siteOk r p then
+      match s.place c r p v with
+      | .error e => .error e
+      | .ok t => placeChain t r c rest
+    else .error .guard
+
+def placeRegions (s : State) : List Region → Except Err State
+  | [] => .ok s
+  | g :: gs =>
+    match s.placeChain g.row g.pred g.cells with
+    | .error e => .error e
+    | .ok t => placeRegions t gs
+
+/-- every optimised cell is placed (what an exposed state must satisfy in addition to `Inv`) -/
+def allPlaced (s : State) : Bool := (intsUpTo s.nCells).all fun c => s.isIgnored c || s.isPlaced c
+
+/-- `RowReordering::writeback` when `improvement_`: unplace all registered cells, then place every
+region's best order at its best positions; refused (guard) if a registered cell is left unplaced -/
+def reorderWriteback (s : State) (cells : List Int) (regions : List Region) : Except Err State :=
+  match s.unplaceAll cells with
+  | .error e => .error e
+  | .ok t =>
+    match t.placeRegions regions with
+    | .error e => .error e
+    | .ok u => if cells.all u.isPlaced then .ok u else .error .guard
 
 /-- one primitive move of the optimiser, refused with `Err.guard` outside its contract -/
 def step (s : State) : Op → Except Err State
   | .swap c1 c2 => if s.liveCell c1 && s.liveCell c2 then s.swap c1 c2 else .error .guard
   | .insert c r p => if s.liveCell c && s.siteOk r p then s.insert c r p else .error .guard
   | .shift mv => s.shift mv
-  | .reorder cells regions => if s.reorderOk cells regions then s.reorderWriteback cells regions else .error .guard
+  | .reorder cells regions => s.reorderWriteback cells regions
 
 /-- a history: stops at the first refused move -/
 def run (s : State) : List Op → Except Err State
